@@ -374,6 +374,145 @@ example : isFreeNumber "1.5E-2".toList = true ∧ isFreeNumber ".015".toList = t
 example : isFreeNumber "C1".toList = false ∧ isFreeNumber "$1".toList = false ∧ isFreeNumber "1.5E".toList = false ∧
     isFreeNumber ".".toList = false ∧ cmdIsNum "C1".toList = false ∧ cmdIsNum ">".toList = false := by decide +kernel
 
+/-! ### residue suffix on the codeword -/
+
+/-- **nameOf_suffix_free**: the name a restraint is looked up under (DEFS rules) does not depend on a residue suffix:
+    for every codeword `kw` without '_' and every suffix text, `KW_suffix` and `KW` give the same name -/
+theorem nameOf_suffix_free (kw sfx : List Char) (h : ∀ c ∈ kw, c.toUpper ≠ '_') :
+    nameOf (kw ++ '_' :: sfx) = kw.map Char.toUpper ∧ nameOf kw = kw.map Char.toUpper := by
+  unfold nameOf
+  induction kw with
+  | nil => constructor <;> simp [List.takeWhile]
+  | cons a t ih =>
+    have ha : (a.toUpper != '_') = true := by simpa using h a (by simp)
+    have ht : ∀ c ∈ t, c.toUpper ≠ '_' := fun c hc => h c (by simp [hc])
+    obtain ⟨i1, i2⟩ := ih ht
+    constructor
+    · simp only [List.cons_append, List.map_cons, List.takeWhile_cons, ha, if_true]
+      rw [i1]
+    · simp only [List.map_cons, List.takeWhile_cons, ha, if_true]
+      rw [i2]
+
+/-- restraint keywords in the case variants SHELXL accepts: the looked-up name is the upper-case keyword -/
+def restraintKws : List String :=
+  ["DFIX", "DANG", "SADI", "SAME", "FLAT", "CHIV", "DELU", "SIMU", "RIGU", "ISOR", "NCSY", "BUMP", "DEFS", "EADP", "EXYZ"]
+
+theorem restraint_names_case_and_suffix : ∀ kw ∈ restraintKws, ∀ sfx ∈ ["", "_2", "_CCF3", "_ccf3", "_*"],
+    nameOf (kw ++ sfx).toList = kw.toList ∧ nameOf (kw.toLower ++ sfx).toList = kw.toList ∧
+    nameOf (kw.capitalize ++ sfx).toList = kw.toList := by decide +kernel
+
+theorem dictGet_dictAppend (d : List (String × List Nat)) (k k' : String) (v : Nat) :
+    dictGet (dictAppend d k v) k' = if k = k' then some ((dictGet d k).getD [] ++ [v]) else dictGet d k' := by
+  induction d with
+  | nil =>
+    by_cases h : k = k'
+    · simp [dictAppend, dictGet, h]
+    · simp [dictAppend, dictGet, h]
+  | cons hd tl ih =>
+    obtain ⟨k0, vs⟩ := hd
+    by_cases h0 : k0 = k
+    · subst h0
+      by_cases h : k0 = k'
+      · simp [dictAppend, dictGet, h]
+      · simp [dictAppend, dictGet, h]
+    · have e0 : (k0 == k) = false := by rw [beq_eq_false_iff_ne]; exact h0
+      by_cases h : k = k'
+      · subst h
+        simp only [dictAppend, e0, Bool.false_eq_true, if_false, if_true] at ih ⊢
+        simp only [dictGet, List.find?_cons, e0] at ih ⊢
+        simpa using ih
+      · simp only [dictAppend, e0, Bool.false_eq_true, h, if_false] at ih ⊢
+        by_cases h1 : k0 = k'
+        · simp [dictGet, h1]
+        · have e1 : (k0 == k') = false := by rw [beq_eq_false_iff_ne]; exact h1
+          simp only [dictGet, List.find?_cons, e1] at ih ⊢
+          simpa using ih
+
+def filt (res : List (String × Nat)) (k : String) : List Nat := (res.filter (fun r => r.1 == k)).map (·.2)
+
+def ext (o : Option (List Nat)) (l : List Nat) : Option (List Nat) := if l = [] then o else some (o.getD [] ++ l)
+
+theorem fold_classDict (res : List (String × Nat)) (d : List (String × List Nat)) (k : String) (hk : k ≠ "") :
+    dictGet (res.foldl (fun d r => if r.1 == "" then d else dictAppend d r.1 r.2) d) k = ext (dictGet d k) (filt res k) := by
+  induction res generalizing d with
+  | nil => simp [ext, filt]
+  | cons r t ih =>
+    obtain ⟨c, n⟩ := r
+    simp only [List.foldl_cons]
+    by_cases hc : c = ""
+    · subst hc
+      have : ("" == k) = false := by rw [beq_eq_false_iff_ne]; exact fun h => hk h.symm
+      rw [ih]
+      simp [filt, List.filter_cons, this]
+    · have hc' : (c == "") = false := by simpa using hc
+      simp only [hc', Bool.false_eq_true, if_false]
+      rw [ih, dictGet_dictAppend]
+      by_cases h : c = k
+      · subst h
+        simp only [if_true, filt, List.filter_cons, beq_self_eq_true, List.map_cons]
+        unfold ext
+        by_cases he : List.map (fun x => x.2) (List.filter (fun r => r.1 == c) t) = []
+        · simp [he]
+        · simp [he, List.append_assoc]
+      · have : (c == k) = false := by simpa using h
+        simp [h, filt, List.filter_cons, this]
+
+theorem fold_classDict_empty (res : List (String × Nat)) (d : List (String × List Nat)) (hd : dictGet d "" = none) :
+    dictGet (res.foldl (fun d r => if r.1 == "" then d else dictAppend d r.1 r.2) d) "" = none := by
+  induction res generalizing d with
+  | nil => simpa using hd
+  | cons r t ih =>
+    obtain ⟨c, n⟩ := r
+    simp only [List.foldl_cons]
+    by_cases hc : c = ""
+    · subst hc; simpa using ih d hd
+    · have hc' : (c == "") = false := by simpa using hc
+      simp only [hc', Bool.false_eq_true, if_false]
+      apply ih
+      rw [dictGet_dictAppend]
+      simp [hc, hd]
+
+theorem dedup_nodup (l : List Nat) (h : l.Nodup) : dedup l = l := by
+  induction l with
+  | nil => rfl
+  | cons a t ih =>
+    have hn := List.nodup_cons.mp h
+    rw [dedup, ih hn.2]
+    congr 1
+    apply List.filter_eq_self.mpr
+    intro b hb
+    have : b ≠ a := fun e => hn.1 (e ▸ hb)
+    simpa using this
+
+/-- **residue_spec**: the residue class and the resolved residue numbers a restraint reports are those its codeword
+    suffix addresses, for ALL lists of RESI instructions (class, number) and every suffix kind.
+    Hypotheses: residue numbers are pairwise different (`_*` goes through a dict keyed by number); an addressed class
+    is not empty-named and has at least one residue (for an unknown class the code reports residue 0). -/
+theorem residue_spec (res : List (String × Nat)) (sfx : Suffix) (hnd : (res.map (·.2)).Nodup)
+    (hcls : ∀ s, sfx = .cls s → s ≠ "" ∧ ∃ r ∈ res, r.1 = s) :
+    modelResidue res sfx = specResidue res sfx := by
+  cases sfx with
+  | none =>
+    simp only [modelResidue, specResidue, classDict]
+    rw [fold_classDict_empty res [] (by simp [dictGet])]
+    rfl
+  | num n => rfl
+  | star => simp [modelResidue, specResidue, dedup_nodup _ hnd]
+  | cls s =>
+    obtain ⟨hs, r, hr, hrs⟩ := hcls s rfl
+    simp only [modelResidue, specResidue, classDict]
+    rw [fold_classDict res [] s hs]
+    have hne : filt res s ≠ [] := by
+      unfold filt
+      intro he
+      have : r ∈ res.filter (fun r => r.1 == s) := List.mem_filter.mpr ⟨hr, by simp [hrs]⟩
+      rw [List.map_eq_nil_iff] at he
+      simp [he] at this
+    unfold filt at hne
+    simp [ext, hne, dictGet, filt]
+
+example : modelResidue [("CCF3", 1), ("TOL", 4), ("CCF3", 2), ("", 7)] (.cls "CCF3") = ("CCF3", [1, 2]) := by decide +kernel
+
 /-! ### setter round trips -/
 
 /-- **ls_setter_roundtrip**: `cycles.number = n` (re-parse of the printed text) yields an object whose text denotes
